@@ -114,6 +114,12 @@ CHECKS = {
          '1 600 (quick) / 3 600 (thorough, the full product) (site, wrapper, value) triples over 20 site kinds (text, both attribute quotings, two interpolations in one attribute, tal:attributes onto new / double / single quoted statics, dictionary value, comment, content, replace, string: in content and attribute, inside i18n:translate, i18n:name blocks, pipe) x 6 wrappers (plain, repeat, define, condition, macro slot filler, on-error) x 30 hostile values (each markup character, both quotes, attribute break-outs, ]]>, -->, entity look-alikes, NUL, non-ASCII, bytes, str subclass, numbers, hostile __str__, message object with hostile translation); 7 opt-out sites x 30 values checked for raw insertion.',
          'Trusted: html.parser and the strict scanner; out of the statement and not checked: attribute names from dictionary keys, return values of the translation function for i18n:translate / i18n:attributes, unquoted attribute values.',
          'DESIGN.md §3 C02'),
+ 'C10': ('history-model',
+         'runtime history checking: a recording translation function passed to the real engine logs every call (msgid, default, mapping, domain, context, target_language); call list and output compared with a reference model of the i18n semantics',
+         'exploration',
+         '3 200 (quick) / 64 000 (thorough) generated i18n element trees (translate with / without id, nested translate, named children under condition / omit-tag, domain / context / target on any ancestor, i18n:attributes with and without ids, tal:content + i18n:translate=\"\") under rewriting and identity translators, ~5 000 translate calls compared per quick run; 320 / 4 800 METAL cases (macro body starts from the caller\'s settings, slot filler keeps those of the place where it is written, slot default), 320 / 4 800 implicit-translation configurations, 320 / 4 800 message-object insertions (offered exactly once with the current domain / context / target; numbers, strings and __html__ objects are not).',
+         'Trusted: the 90-line i18n model; a missing keyword argument is read as None.',
+         'DESIGN.md §3 C10'),
 }
 NOT_YET = {}
 
